@@ -207,15 +207,18 @@ func execSigd(c px.Context, args []sx.Sexp) core.Result {
 	// the block handed to the call: its signature as a (callable P R B) term, or n
 	var block px.Lambda
 	if len(args) == 3 && (args[2].IsList || args[2].Atom != "n") {
-		var bt px.Type
-		var st string
-		if f := lat.Safely(func() { bt, st = buildCallable(env, args[2], &tags) }); f != nil || st == "no" || st == "bad-op" {
-			return bad("block " + st + fmt.Sprint(f))
+		b, status, err := env.BuildArg(args[2], &tags)
+		if status == "bad-op" {
+			return bad("block " + fmt.Sprint(err))
 		}
-		if st != "" {
+		if status != "" {
 			return core.Result{Out: "unbuildable", Pred: "n/a", Tags: tags}
 		}
-		block = &blockLambda{bt.(*types.CallableType)}
+		ct, ok := b.C.(*types.CallableType)
+		if !ok {
+			return bad("the block's signature is no Callable term")
+		}
+		block = &blockLambda{ct}
 		tags = append(tags, "sblock:given")
 	}
 	var text string
@@ -361,9 +364,12 @@ func genSigd(g *core.G, lg *lat.Gen) {
 	}
 	// calls WITH a block: against signatures without / with a required / with an optional block type (Callable[1, 1]); the block's
 	// signature fits, has other parameters, declares a return type, has a block of its own
-	b11 := lat.TupSz(nil, 1, 1).String()
-	blockSigs := []string{"(callable " + b11 + " n n)", "(callable " + lat.Tup([]lat.Ty{str}).String() + " n n)", "(callable " + lat.TupSz(nil, 2, 2).String() + " n n)",
-		"(callable " + b11 + " " + integer.String() + " n)", "(callable n n n)", "(callable " + b11 + " n (r " + b11 + " n))", "(callable " + lat.TupSz(nil, 0, 3).String() + " n n)"}
+	tp := func(t lat.Ty) *lat.Ty { return &t }
+	b11 := lat.TupSz(nil, 1, 1)
+	blockSigs := []string{lat.Call(tp(b11), nil, nil).String(), lat.Call(tp(lat.Tup([]lat.Ty{str})), nil, nil).String(),
+		lat.Call(tp(lat.TupSz(nil, 2, 2)), nil, nil).String(), lat.Call(tp(b11), tp(integer), nil).String(), lat.Call(nil, nil, nil).String(),
+		lat.Call(tp(b11), nil, tp(lat.Call(tp(b11), nil, nil))).String(), lat.Call(tp(lat.TupSz(nil, 0, 3)), nil, nil).String(),
+		lat.Call(tp(lat.TupSz([]lat.Ty{lat.Atom("unit")}, 1, 1)), nil, nil).String()}
 	emitB := func(sigs []sigT, a lat.Ty, b string) {
 		ss := make([]string, len(sigs))
 		for i, s := range sigs {
